@@ -476,6 +476,21 @@ class BuiltinMixin(object):
       return [(st, VBool(obj.cls is cls.cls))]
     return [(st, VBool(z3.And(obj.t != 0, st.classof(obj.t) == cls.cls.uid)))]
 
+  def b_content(self, st, args, kwargs):
+    from pyvc.values import VSnap
+    d = args[0]
+    if isinstance(d, VRef) and d.cls in ('dict', 'set'):
+      return [(st, VSnap('dict', self.dict_dom(st, d), self.dict_val(st, d), d.elem))]
+    if isinstance(d, VRef) and d.cls in ('list', 'tuple'):
+      return [(st, VSnap('list', self.list_len(st, d), self.list_items(st, d), d.elem))]
+    raise Unsupported('content() of %r' % (d,))
+
+  def b_forall_str(self, st, args, kwargs):
+    return self._quant_lambda(st, args[0], True, z3.StringSort())
+
+  def b_exists_str(self, st, args, kwargs):
+    return self._quant_lambda(st, args[0], False, z3.StringSort())
+
   def b_cast(self, st, args, kwargs):
     obj, cls = args
     return [(st, VRef(cls.cls, obj.t, nullable=obj.nullable, exact=obj.exact, elem=obj.elem))]
@@ -512,13 +527,14 @@ class BuiltinMixin(object):
   def b_exists_int(self, st, args, kwargs):
     return self._quant_lambda(st, args[0], False)
 
-  def _quant_lambda(self, st, fn, universal):
+  def _quant_lambda(self, st, fn, universal, sort=None):
+    sort = z3.IntSort() if sort is None else sort
     params = [p.arg for p in fn.finfo.node.args.args]
-    bound = [fresh('q_' + p, z3.IntSort()) for p in params]
+    bound = [fresh('q_' + p, sort) for p in params]
     s = st.fork()
     env = dict(fn.closure or st.env)
     for p, b in zip(params, bound):
-      env[p] = VInt(b)
+      env[p] = VInt(b) if sort == z3.IntSort() else VStr(b)
     s.env = env
     body = self.eval_merged_bool(s, fn.finfo.node.body)
     return [(st, VBool(z3.ForAll(bound, body) if universal else z3.Exists(bound, body)))]
